@@ -85,8 +85,8 @@ struct Outcome {           // what one execution of a scenario looked like from 
     size_t failures; Str firstFailure; Str allText; bool bodyCompleted; size_t callsMade;
     Outcome() : failures(0), bodyCompleted(false), callsMade(0) {}
 };
-struct CallPlan { int fn; int obj; Vec<int> vals; Str dev; int task; bool extra; };
-struct ExpPlan { int fn; int count; int flags; int obj; Vec<int> vals; int ret; };
+struct CallPlan { int fn; int obj; Vec<int> vals; Str dev; int task; bool extra; int scope; bool shortForm; };
+struct ExpPlan { int fn; int count; int flags; int obj; Vec<int> vals; int ret; int scope; };      // flags: 1 ignoreOtherParameters, 2 named scope, 4 short form (last parameter not specified, and not passed by its calls)
 struct Scenario { bool strict, ignoreOther, useScope, preFail; Vec<ExpPlan> exps; Vec<CallPlan> calls; Vec<Op> data; };
 
 struct Front {
@@ -125,19 +125,20 @@ static const char* paramNameFor(const Fn& F, int k, const Str& dev) { static cha
 // ---- C++ front end
 struct CppFront : public Front {
     const char* id() { return "cpp"; }
-    MockSupport& m(const Scenario& sc) { return sc.useScope ? mock("scope1") : mock(); }
+    MockSupport& m(const Scenario& sc, int scope = 0) { return (sc.useScope || scope) ? mock("scope1") : mock(); }
     void begin(const Scenario& sc) {
         static MyTypeComparator cmp; static MyTypeCopier cp;
         mock().installComparator("MyType", cmp); mock().installCopier("MyType", cp);
+        mock("scope1");                                  // the named scope exists before anything recursive is switched on
         if (sc.strict) m(sc).strictOrder();
-        if (sc.ignoreOther) m(sc).ignoreOtherCalls();
+        if (sc.ignoreOther) mock().ignoreOtherCalls();
     }
     void expect(const Scenario& sc, const ExpPlan& e) {
         const Fn& F = FNS[e.fn];
-        if (e.count == 0) { m(sc).expectNoCall(F.name); return; }
-        MockExpectedCall& x = e.count == 1 ? m(sc).expectOneCall(F.name) : m(sc).expectNCalls((unsigned)e.count, F.name);
+        if (e.count == 0) { m(sc, e.scope).expectNoCall(F.name); return; }
+        MockExpectedCall& x = e.count == 1 ? m(sc, e.scope).expectOneCall(F.name) : m(sc, e.scope).expectNCalls((unsigned)e.count, F.name);
         if (e.obj) x.onObject(objectPtr(e.obj));
-        int np = (e.flags & 1) ? (F.np > 1 ? F.np - 1 : F.np) : F.np;     // ignoreOtherParameters: the last parameter is left unspecified
+        int np = (e.flags & 5) ? (F.np > 1 ? F.np - 1 : F.np) : F.np;     // ignoreOtherParameters / short form: the last parameter is left unspecified
         for (int k = 0; k < np; k++) {
             int v = e.vals[(size_t)k] & 7;
             switch (F.p[k].ty) {
@@ -176,12 +177,13 @@ struct CppFront : public Front {
         }
     }
     void call(const Scenario& sc, const CallPlan& c, Outcome& o) {
-        if (c.extra) { m(sc).actualCall("not_expected_fn"); o.callsMade++; o.log.push_back("extra ignored"); return; }
+        if (c.extra) { m(sc, c.scope).actualCall("not_expected_fn"); o.callsMade++; o.log.push_back("extra ignored"); return; }
         const Fn& F = FNS[c.fn];
-        MockActualCall& x = m(sc).actualCall(F.name);
+        MockActualCall& x = m(sc, c.scope).actualCall(F.name);
         if (c.obj && c.dev != "noobject") x.onObject(objectPtr(c.dev == "object" ? otherObject(c.obj) : c.obj));
         for (int k = 0; k < F.np; k++) {
             if (c.dev == sfmt("omit:%d", k)) continue;
+            if (c.shortForm && F.np > 1 && k == F.np - 1) continue;
             int v = c.vals[(size_t)k] & 7; const char* pn = paramNameFor(F, k, c.dev);
             switch (F.p[k].ty) {
             case T_BOOL: x.withParameter(pn, (v & 1) != 0); break;
@@ -224,7 +226,7 @@ struct CppFront : public Front {
         if (F.out && F.outTy == T_OBJ) line += sfmt(" out=MyType(%d)", outObj.x);
         o.log.push_back(line); o.callsMade++;
     }
-    void check(const Scenario& sc) { m(sc).checkExpectations(); }
+    void check(const Scenario&) { mock().checkExpectations(); }
     void data(const Op& op, Outcome& out) {
         MockSupport& M = mock();
         const char* nm = op.s.c_str(); int v = (int)(op.b & 7);
@@ -251,17 +253,18 @@ struct CppFront : public Front {
 // ---- C front end
 struct CFront : public Front {
     const char* id() { return "c"; }
-    MockSupport_c* m(const Scenario& sc) { return sc.useScope ? mock_scope_c("scope1") : mock_c(); }
+    MockSupport_c* m(const Scenario& sc, int scope = 0) { return (sc.useScope || scope) ? mock_scope_c("scope1") : mock_c(); }
     void begin(const Scenario& sc) {
         mock_c()->installComparator("MyType", myTypeEqualC, myTypeToStringC); mock_c()->installCopier("MyType", myTypeCopyC);
+        mock_scope_c("scope1");
         if (sc.strict) m(sc)->strictOrder();
-        if (sc.ignoreOther) m(sc)->ignoreOtherCalls();
+        if (sc.ignoreOther) mock_c()->ignoreOtherCalls();
     }
     void expect(const Scenario& sc, const ExpPlan& e) {
         const Fn& F = FNS[e.fn];
-        if (e.count == 0) { m(sc)->expectNoCall(F.name); return; }
-        MockExpectedCall_c* x = e.count == 1 ? m(sc)->expectOneCall(F.name) : m(sc)->expectNCalls((unsigned)e.count, F.name);
-        int np = (e.flags & 1) ? (F.np > 1 ? F.np - 1 : F.np) : F.np;
+        if (e.count == 0) { m(sc, e.scope)->expectNoCall(F.name); return; }
+        MockExpectedCall_c* x = e.count == 1 ? m(sc, e.scope)->expectOneCall(F.name) : m(sc, e.scope)->expectNCalls((unsigned)e.count, F.name);
+        int np = (e.flags & 5) ? (F.np > 1 ? F.np - 1 : F.np) : F.np;
         for (int k = 0; k < np; k++) {
             int v = e.vals[(size_t)k] & 7;
             switch (F.p[k].ty) {
@@ -300,11 +303,12 @@ struct CFront : public Front {
         }
     }
     void call(const Scenario& sc, const CallPlan& c, Outcome& o) {
-        if (c.extra) { m(sc)->actualCall("not_expected_fn"); o.callsMade++; o.log.push_back("extra ignored"); return; }
+        if (c.extra) { m(sc, c.scope)->actualCall("not_expected_fn"); o.callsMade++; o.log.push_back("extra ignored"); return; }
         const Fn& F = FNS[c.fn];
-        MockActualCall_c* x = m(sc)->actualCall(F.name);
+        MockActualCall_c* x = m(sc, c.scope)->actualCall(F.name);
         for (int k = 0; k < F.np; k++) {
             if (c.dev == sfmt("omit:%d", k)) continue;
+            if (c.shortForm && F.np > 1 && k == F.np - 1) continue;
             int v = c.vals[(size_t)k] & 7; const char* pn = paramNameFor(F, k, c.dev);
             switch (F.p[k].ty) {
             case T_BOOL: x->withBoolParameters(pn, (v & 1)); break;
@@ -346,7 +350,7 @@ struct CFront : public Front {
         if (F.out && F.outTy == T_OBJ) line += sfmt(" out=MyType(%d)", outObj.x);
         o.log.push_back(line); o.callsMade++;
     }
-    void check(const Scenario& sc) { m(sc)->checkExpectations(); }
+    void check(const Scenario&) { mock_c()->checkExpectations(); }
     void data(const Op& op, Outcome& out) {
         MockSupport_c* M = mock_c();
         const char* nm = op.s.c_str(); int v = (int)(op.b & 7);
@@ -447,6 +451,7 @@ struct Engine : public vf::Engine {
             Group G; G.tag = "scenario";
             bool strict = w.chance(1, 4), ignoreOther = w.chance(1, 5), scope = w.chance(1, 5);
             G.args.push_back(strict); G.args.push_back(ignoreOther); G.args.push_back(scope); G.args.push_back(cfront && w.chance(1, 6));
+            bool mixedScopes = !strict && !scope && w.chance(1, 4), shortForms = w.chance(1, 5);
             int nFn = (int)w.range(1, 4); int fns[4]; for (int i = 0; i < nFn; i++) fns[i] = (int)w.below(N_FN);
             int nExp = (int)w.small(1, 12);
             bool useObjects[N_FN]; bool ignoreParams[N_FN];
@@ -459,8 +464,10 @@ struct Engine : public vf::Engine {
                 o.d = useObjects[o.a] ? w.range(1, 4) : 0;
                 Vec<int> vals; for (int k = 0; k < F.np; k++) vals.push_back((int)w.below(F.p[k].ty == T_BOOL ? 2 : (F.p[k].ty == T_FPTR ? 4 : 7)));
                 if (ignoreParams[o.a] && F.np > 1) o.c = 1;
-                Vec<int> keyVals = vals; if (o.c & 1) keyVals.pop_back();
-                Str key = sfmt("%d|%d|", (int)o.a, (int)o.d) + joinIdx(keyVals);
+                else if (shortForms && F.np > 1 && w.chance(1, 3)) o.c = 4;           // short form: S = L minus its last parameter
+                if (mixedScopes && w.chance(1, 2)) o.c |= 2;
+                Vec<int> keyVals = vals; if (o.c & 5) keyVals.pop_back();
+                Str key = sfmt("%d|%d|%d|%d|", (int)o.a, (int)o.d, (int)(o.c & 2), (int)(o.c & 4)) + joinIdx(keyVals);
                 bool dupKey = std::find(classes.begin(), classes.end(), key) != classes.end();
                 bool fnSeen = false; for (size_t k = 0; k < classes.size(); k++) if (atoi(classes[k].c_str()) == (int)o.a) fnSeen = true;
                 if ((o.c & 1) && fnSeen) continue;                        // an ignore-other-parameters expectation is the only class of its function
@@ -477,7 +484,7 @@ struct Engine : public vf::Engine {
             int nTasks = strict ? 1 : (int)w.range(1, 4);
             Vec<Op> calls;
             for (size_t k = 0; k < G.ops.size(); k++) if (G.ops[k].kind == M_EXPECT) for (int n = 0; n < (int)G.ops[k].b; n++) {
-                Op c; c.kind = M_CALL; c.a = G.ops[k].a; c.d = G.ops[k].d; c.s = G.ops[k].s; c.phase = (int)w.below((uint64_t)nTasks);
+                Op c; c.kind = M_CALL; c.a = G.ops[k].a; c.d = G.ops[k].d; c.s = G.ops[k].s; c.phase = (int)w.below((uint64_t)nTasks); c.b = ((G.ops[k].c & 2) ? 1 : 0) | ((G.ops[k].c & 4) ? 2 : 0);
                 if (G.ops[k].c & 1) { Vec<int> v = parseIdx(c.s); if (!v.empty()) v.back() = (int)w.below(7); c.s = joinIdx(v); }   // the ignored parameter may carry anything
                 calls.push_back(c);
             }
@@ -512,9 +519,9 @@ struct Engine : public vf::Engine {
         sc.strict = G.arg(0) != 0; sc.ignoreOther = G.arg(1) != 0; sc.useScope = G.arg(2) != 0; sc.preFail = G.arg(3) != 0;
         for (size_t i = 0; i < G.ops.size(); i++) {
             const Op& o = G.ops[i];
-            if (o.kind == M_EXPECT) { ExpPlan e; e.fn = (int)(o.a % N_FN); e.count = (int)o.b; e.flags = (int)o.c; e.obj = (int)o.d; e.vals = parseIdx(o.s); e.vals.resize((size_t)FNS[e.fn].np, 0); e.ret = atoi(o.s2.c_str()); sc.exps.push_back(e); }
+            if (o.kind == M_EXPECT) { ExpPlan e; e.fn = (int)(o.a % N_FN); e.count = (int)o.b; e.flags = (int)o.c; e.obj = (int)o.d; e.vals = parseIdx(o.s); e.vals.resize((size_t)FNS[e.fn].np, 0); e.ret = atoi(o.s2.c_str()); e.scope = (e.flags & 2) ? 1 : 0; sc.exps.push_back(e); }
             else if (o.kind == M_CALL) {
-                CallPlan c; c.fn = (int)(o.a % N_FN); c.obj = (int)o.d; c.vals = parseIdx(o.s); c.vals.resize((size_t)FNS[c.fn].np, 0); c.dev = o.s2; c.task = o.phase; c.extra = o.s2 == "extra";
+                CallPlan c; c.fn = (int)(o.a % N_FN); c.obj = (int)o.d; c.vals = parseIdx(o.s); c.vals.resize((size_t)FNS[c.fn].np, 0); c.dev = o.s2; c.task = o.phase; c.extra = o.s2 == "extra"; c.scope = (o.b & 1) ? 1 : 0; c.shortForm = (o.b & 2) != 0;
                 if (c.dev == "drop") continue;
                 sc.calls.push_back(c);
                 if (c.dev == "dup") { CallPlan c2 = c; c2.task = (c.task + 1) % 4; sc.calls.push_back(c2); }
@@ -524,7 +531,7 @@ struct Engine : public vf::Engine {
     }
     // Reference semantics, written from the property text. A call is described by what it concretely passes (after the injected
     // deviation); an expectation class by function, object and the parameter values it specifies.
-    struct Cls { int fn, obj; Vec<int> vals; int nSpec; bool ignoreOther; int capacity, total, ret; size_t firstExp; };
+    struct Cls { int fn, obj, scope; Vec<int> vals; int nSpec; bool ignoreOther; int capacity, total, ret; size_t firstExp; };
     struct Passed { Str name; int val; Ty ty; };
     static void concreteCall(const CallPlan& c, bool& hasObj, int& obj, Vec<Passed>& ps) {
         const Fn& F = FNS[c.fn]; ps.clear();
@@ -537,18 +544,19 @@ struct Engine : public vf::Engine {
         // returns false when the scenario is outside the property's precondition (ambiguous matching)
         for (size_t i = 0; i < sc.exps.size(); i++) {
             const ExpPlan& e = sc.exps[i]; const Fn& F = FNS[e.fn];
-            Cls c; c.fn = e.fn; c.obj = e.count == 0 ? 0 : e.obj; c.vals = e.vals; c.ignoreOther = (e.flags & 1) != 0; c.nSpec = e.count == 0 ? 0 : (c.ignoreOther && F.np > 1 ? F.np - 1 : F.np);
+            Cls c; c.fn = e.fn; c.scope = (sc.useScope || e.scope) ? 1 : 0; c.obj = e.count == 0 ? 0 : e.obj; c.vals = e.vals; c.ignoreOther = (e.flags & 1) != 0; c.nSpec = e.count == 0 ? 0 : ((e.flags & 5) && F.np > 1 ? F.np - 1 : F.np);
+            if (sc.strict && e.scope && !sc.useScope) return false;     // strict order is only generated for single-scope scenarios
             if (e.obj < 0 || e.obj > 4) return false;
             c.capacity = c.total = e.count; c.ret = e.ret & 7; c.firstExp = i;
             bool merged = false;
-            for (size_t k = 0; k < cls.size() && !merged; k++) if (cls[k].fn == c.fn && e.count > 0 && cls[k].total > 0) {
-                bool same = cls[k].obj == c.obj && cls[k].ignoreOther == c.ignoreOther;
+            for (size_t k = 0; k < cls.size() && !merged; k++) if (cls[k].fn == c.fn && cls[k].scope == c.scope && e.count > 0 && cls[k].total > 0) {
+                bool same = cls[k].obj == c.obj && cls[k].ignoreOther == c.ignoreOther && cls[k].nSpec == c.nSpec;
                 for (int q = 0; same && q < c.nSpec; q++) if (!valueEq(F.p[q].ty, cls[k].vals[(size_t)q], c.vals[(size_t)q])) same = false;
                 if (same) { if (cls[k].ret != c.ret) return false; cls[k].capacity += c.capacity; cls[k].total += c.total; merged = true; }
             }
             if (!merged) cls.push_back(c);
         }
-        for (size_t a = 0; a < cls.size(); a++) for (size_t b = a + 1; b < cls.size(); b++) if (cls[a].fn == cls[b].fn) {
+        for (size_t a = 0; a < cls.size(); a++) for (size_t b = a + 1; b < cls.size(); b++) if (cls[a].fn == cls[b].fn && cls[a].scope == cls[b].scope) {
             if (cls[a].ignoreOther || cls[b].ignoreOther) return false;          // an ignore-other-parameters expectation must be the only class of its function
             if (cls[a].total == 0 || cls[b].total == 0) return false;          // expectNoCall next to real expectations
             if ((cls[a].obj != 0) != (cls[b].obj != 0)) return false;          // object / no-object mix: a call on the object matches both
@@ -561,17 +569,19 @@ struct Engine : public vf::Engine {
         Vec<int> seq;
         for (size_t i = 0; i < order.size(); i++) {
             const CallPlan& c = sc.calls[order[i]];
-            bool fnKnown = false; for (size_t k = 0; k < cls.size(); k++) if (cls[k].fn == c.fn && !c.extra) fnKnown = true;
+            int cscope = (sc.useScope || c.scope) ? 1 : 0;
+            bool fnKnown = false; for (size_t k = 0; k < cls.size(); k++) if (cls[k].fn == c.fn && cls[k].scope == cscope && !c.extra) fnKnown = true;
             if (c.extra || !fnKnown) {
                 if (sc.ignoreOther) { x.consumed.push_back(-1); continue; }
                 x.pass = false; x.admissible.insert("unexpected_call"); return;
             }
             bool hasObj; int obj; Vec<Passed> ps; concreteCall(c, hasObj, obj, ps);
+            if (c.shortForm && FNS[c.fn].np > 1) { Vec<Passed> keep; for (size_t q = 0; q < ps.size(); q++) if (ps[q].name != paramNameFor(FNS[c.fn], FNS[c.fn].np - 1, c.dev)) keep.push_back(ps[q]); ps = keep; }
             // candidates: open classes of the function, pruned the way a reader of the call would
             Vec<size_t> cand; bool anyFulfilled = false;
-            for (size_t k = 0; k < cls.size(); k++) if (cls[k].fn == c.fn) { if (cls[k].capacity > 0) cand.push_back(k); if (cls[k].capacity < cls[k].total) anyFulfilled = true; }
+            for (size_t k = 0; k < cls.size(); k++) if (cls[k].fn == c.fn && cls[k].scope == cscope) { if (cls[k].capacity > 0) cand.push_back(k); if (cls[k].capacity < cls[k].total) anyFulfilled = true; }
             // does the call equal a class that is merely used up? then "surplus call" is a fair name for whatever follows
-            for (size_t k = 0; k < cls.size(); k++) if (cls[k].fn == c.fn && cls[k].capacity == 0 && cls[k].total > 0) {
+            for (size_t k = 0; k < cls.size(); k++) if (cls[k].fn == c.fn && cls[k].scope == cscope && cls[k].capacity == 0 && cls[k].total > 0) {
                 bool eq = (cls[k].obj == 0 || (hasObj && obj == cls[k].obj)) && (int)ps.size() >= cls[k].nSpec;
                 for (size_t q = 0; eq && q < ps.size(); q++) { int si = specIndex(cls[k], ps[q].name); if (si < 0) { if (!cls[k].ignoreOther) eq = false; } else if (!valueEq(ps[q].ty, ps[q].val, cls[k].vals[(size_t)si])) eq = false; }
                 if (eq) x.admissible.insert("additional_call");
@@ -581,7 +591,10 @@ struct Engine : public vf::Engine {
             for (size_t q = 0; q < ps.size(); q++) {
                 Vec<size_t> n; bool nameKnown = false;
                 for (size_t k = 0; k < cand.size(); k++) { int si = specIndex(cls[cand[k]], ps[q].name); if (si >= 0) { nameKnown = true; if (valueEq(ps[q].ty, ps[q].val, cls[cand[k]].vals[(size_t)si])) n.push_back(cand[k]); } else if (cls[cand[k]].ignoreOther) { nameKnown = true; n.push_back(cand[k]); } }
-                if (n.empty()) { x.pass = false; x.admissible.insert(nameKnown ? "parameter_value" : "parameter_name"); return; }
+                if (n.empty()) {
+                    // a name is 'unexpected' only if no expectation of this function (used up or not) has such a parameter
+                    for (size_t k = 0; k < cls.size(); k++) if (cls[k].fn == c.fn && cls[k].scope == cscope && (specIndex(cls[k], ps[q].name) >= 0 || cls[k].ignoreOther)) nameKnown = true;
+                    x.pass = false; x.admissible.insert(nameKnown ? "parameter_value" : "parameter_name"); return; }
                 cand = n;
             }
             int hit = -1;
